@@ -81,86 +81,77 @@ static inline _Bool w_inv_end(const Node *W)
 static inline _Bool headgap(const CL *L, const Node *W)   /* no live node ranks below the head */
 { return !LIVE(W) || (L->head != NULL && L->head->rank <= W->rank); }
 static inline _Bool i_cnt(const CL *L, const Node *k) { return !LIVE(k) || k->counter <= L->currentCounter; }
+/* null-tolerant forms for enumerating instances over a window */
+static inline _Bool gapn(const Node *x, const Node *w) { return x == NULL || w == NULL || gap(x, w); }
+static inline _Bool uniqn(const Node *x, const Node *w) { return x == NULL || w == NULL || uniq(x, w); }
+static inline _Bool headgapn(const CL *L, const Node *w) { return w == NULL || headgap(L, w); }
+static inline _Bool i_cntn(const CL *L, const Node *w) { return w == NULL || i_cnt(L, w); }
+static inline _Bool j_genn(const Node *w) { return w == NULL || j_gen(w); }
+static inline _Bool rank_free(unsigned long long r, const Node *w) { return w == NULL || w->rank != r; }
+/* witness-side instances for one witness w against up to three nodes whose `next` lies in the window */
+#define W_INST(L, w, x1, x2, x3) (gapn(x1, w) && gapn(x2, w) && gapn(x3, w) && uniqn(x1, w) && uniqn(x2, w) && uniqn(x3, w) && headgapn(L, w) && i_cntn(L, w) && j_genn(w))
+#define INV_TIME(L) (g_T <= g_clock && g_c <= (L)->currentCounter)
 
-/* ------------------------------------------------------------------ window helpers (DESIGN 3.1, rules 2, 3, 8) */
+/* ------------------------------------------------------------------ window helpers (DESIGN 3.1, section 4 rules) */
 #define FRESH_NODE(p)      __CPROVER_is_fresh(p, sizeof(Node))
 #define NULL_OR_FRESH(p)   ((p) == NULL || FRESH_NODE(p))
 #define PEQ(a, b)          __CPROVER_pointer_equals(a, b)
-/* pointer-valued postcondition (rule 3: a field havoc'd by a replaced contract needs pointer_equals to get a value set) */
+/* pointer-valued postcondition (a field havoc'd by a replaced contract needs pointer_equals to get a value set) */
 #define PTR_IS(x, v)       (((v) == NULL) ? ((x) == NULL) : PEQ(x, v))
-/* p is null, is one of up to three named window nodes, or is some other node */
-#define ALIAS3(p, a, b, c) ((p) == NULL || ((a) != NULL && PEQ(p, a)) || ((b) != NULL && PEQ(p, b)) || ((c) != NULL && PEQ(p, c)) || FRESH_NODE(p))
-
-/* two-state facts every operation guarantees about a node it does not own (rely R, DESIGN 3.3) */
-#define FROZEN_IF_REMOVED(k, old_counter, old_next, old_prev, old_rem) \
-  ((old_counter) == 0 ==> ((k)->counter == 0 && (k)->next == (old_next) && (k)->previous == (old_prev) && (k)->remStamp == (old_rem)))
-
-/* ------------------------------------------------------------------ the arbitrary other node gK
- * forall-introduction over the unbounded heap (DESIGN 3.1): after an operation every invariant instance must hold
- * again at an ARBITRARY node.  An instance can only be affected if it reads something the operation writes, i.e.
- * if the node is a footprint node or one of its links points to a footprint node.  gK is therefore any node
- * other than the window nodes a, b, c, d (possibly null); each of its links is null, points to a window node, or
- * points elsewhere.  The far-side instances of the window nodes themselves (e.g. the backward instance of the
- * predecessor p of a removed node) read nothing in the function's assigns clause -- p's own fields other than
- * p->next, the node before p, and L->head, which is assignable only when the removed node WAS the head, i.e. when
- * there is no p -- so they are preserved by the frame that DFCC checks; that step is part of the meta-argument.
- * (DFCC allows one pointer predicate per pointer lvalue, so gK cannot be aliased to a window node whose links are
- * already described.) */
 #define ALIAS4(p, a, b, c, d) ((p) == NULL || ((a) != NULL && PEQ(p, a)) || ((b) != NULL && PEQ(p, b)) || ((c) != NULL && PEQ(p, c)) || ((d) != NULL && PEQ(p, d)) || FRESH_NODE(p))
-#define K_REQ(L, a, b, c, d) (FRESH_NODE(gK) && ALIAS4(gK->next, a, b, c, d) && ALIAS4(gK->previous, a, b, c, d) && I_FWD(L, gK) && I_BWD(L, gK) && I_STAMP(gK))
-#define K_ENS(L) (I_FWD(L, gK) && I_BWD(L, gK) && I_STAMP(gK))
-/* the arbitrary witness gW of the two-node instances gap(k, W), uniq(k, W): any node -- one of the window nodes, gK, or another one */
-#define W_IS(a, b, c) (((a) != NULL && PEQ(gW, a)) || ((b) != NULL && PEQ(gW, b)) || ((c) != NULL && PEQ(gW, c)) || PEQ(gW, gK) || FRESH_NODE(gW))
 #define CLOCK_OK          (g_clock < 0xffffffffffff0000ull)
 #define HELD(L)           ((L)->mutex.depth == 1)
 #define UNLOCKED(L)       ((L)->mutex.depth == 0)
+#define NOWRAP(L)         ((L)->currentCounter != 0xffffffffu)
+#define INV_TIME(L)       (g_T <= g_clock && g_c <= (L)->currentCounter)
+static inline _Bool i_hdr(const CL *L) { return (L->head == NULL) == (L->tail == NULL); }
+#define I_HDR(L) i_hdr(L)
 
-/* ================================================================== doFreeNode (callbacklist.h:386)
- * window: n = *node, p = n->previous, s = n->next, arbitrary other node gK
- * pre : mutex held, n is a LIVE node of this list (instances at n)
- * post: exact link surgery; n marked removed and stamped, its own links kept (stale); instances again at n, p, s, gK */
-#define CONTRACT_CL_doFreeNode \
-  __CPROVER_requires(__CPROVER_is_fresh(self, sizeof(CL)) && __CPROVER_is_fresh(node, sizeof(Node *)) && FRESH_NODE(*node)) \
-  __CPROVER_requires(NULL_OR_FRESH((*node)->previous) && NULL_OR_FRESH((*node)->next)) \
-  __CPROVER_requires(((*node)->previous != NULL ==> PEQ((*node)->previous->next, *node)) && ((*node)->next != NULL ==> PEQ((*node)->next->previous, *node))) /* back pointers: pointer_equals, or dereferencing through them has no value set (rule 8) */ \
-  __CPROVER_requires(PEQ(self->head, *node) || ((*node)->previous != NULL && PEQ(self->head, (*node)->previous)) || FRESH_NODE(self->head)) \
-  __CPROVER_requires(K_REQ(self, *node, (*node)->previous, (*node)->next, (Node *)NULL)) \
-  __CPROVER_requires(HELD(self) && CLOCK_OK) \
-  __CPROVER_requires(LIVE(*node) && I_FWD(self, *node) && I_BWD(self, *node) && I_STAMP(*node)) \
-  __CPROVER_requires((*node)->previous != NULL ==> (I_FWD(self, (*node)->previous) && I_STAMP((*node)->previous))) \
-  __CPROVER_requires((*node)->next != NULL ==> (I_BWD(self, (*node)->next) && I_STAMP((*node)->next))) \
-  __CPROVER_requires(W_IS(*node, (*node)->previous, (*node)->next) && I_STAMP(gW) && headgap(self, gW)) \
-  __CPROVER_requires(gap(*node, gW) && uniq(*node, gW) && gap(gK, gW) && ((*node)->previous != NULL ==> gap((*node)->previous, gW))) \
-  __CPROVER_assigns((*node)->counter, (*node)->remStamp, g_clock) \
-  __CPROVER_assigns(self->head == *node: self->head) \
-  __CPROVER_assigns(self->tail == *node: self->tail) \
-  __CPROVER_assigns((*node)->next != NULL: (*node)->next->previous) \
-  __CPROVER_assigns((*node)->previous != NULL: (*node)->previous->next) \
-  __CPROVER_ensures(!LIVE(*node) && (*node)->remStamp == g_clock && g_clock == __CPROVER_old(g_clock) + 1) \
-  __CPROVER_ensures((*node)->next == __CPROVER_old((*node)->next) && (*node)->previous == __CPROVER_old((*node)->previous)) \
-  __CPROVER_ensures((*node)->previous != NULL ==> PTR_IS((*node)->previous->next, (*node)->next)) \
-  __CPROVER_ensures((*node)->next != NULL ==> PTR_IS((*node)->next->previous, (*node)->previous)) \
-  __CPROVER_ensures(__CPROVER_old(self->head) == *node ? PTR_IS(self->head, (*node)->next) : self->head == __CPROVER_old(self->head)) \
-  __CPROVER_ensures(__CPROVER_old(self->tail) == *node ? PTR_IS(self->tail, (*node)->previous) : self->tail == __CPROVER_old(self->tail)) \
-  __CPROVER_ensures(HELD(self)) \
-  __CPROVER_ensures(I_FWD(self, *node) && I_BWD(self, *node) && I_STAMP(*node)) \
-  __CPROVER_ensures((*node)->previous != NULL ==> I_FWD(self, (*node)->previous)) \
-  __CPROVER_ensures((*node)->next != NULL ==> I_BWD(self, (*node)->next)) \
-  __CPROVER_ensures(K_ENS(self)) \
-  __CPROVER_ensures(gap(*node, gW) && gap(gK, gW) && ((*node)->previous != NULL ==> gap((*node)->previous, gW)) && headgap(self, gW) && j_gen(*node))
+/* ------------------------------------------------------------------ forall-introduction over the unbounded heap
+ * After an operation every invariant instance must hold again at ARBITRARY nodes.  An instance can only be
+ * affected if it reads something the operation writes.  Each list operation is therefore verified three times
+ * (same contract text, obligation mode selected with -D):
+ *
+ *   OB_S  (default) one-node instances I_FWD / I_BWD / I_STAMP at the footprint nodes and at an arbitrary OTHER
+ *         node gK whose links are null, point to a window node (a, b, c, d) or point elsewhere.
+ *   OB_W1 two-node instances gap(x, W), uniq(x, W), headgap(L, W), i_cnt(L, W), j_gen(W) for the footprint nodes x
+ *         against an arbitrary witness gW (a window node or another node), and against the new node as witness.
+ *   OB_W2 (adding operations) the arbitrary other node gK against the NEW node as witness: gap(gK, m), uniq(gK, m).
+ *         For nodes outside the footprint gap(k, W) reads only k->rank, k->next->rank, k->remStamp, LIVE(k), LIVE(W),
+ *         W->addStamp: it can change only when W becomes live, i.e. when W is the new node.
+ *
+ * The far-side instances of the footprint nodes themselves (e.g. the backward instance of the predecessor p of a
+ * removed node) read nothing in the function's assigns clause, so they are preserved by the frame DFCC checks
+ * (meta-argument; DFCC allows one pointer predicate per pointer lvalue, so gK cannot alias such a node). */
+#if defined(OB_W1)
+#define K_WIN(a, b, c, d) 1
+#define K_VAL(L) 1
+#define K_ENS(L) 1
+#define W_WIN(a, b, c, d) (((a) != NULL && PEQ(gW, a)) || ((b) != NULL && PEQ(gW, b)) || ((c) != NULL && PEQ(gW, c)) || ((d) != NULL && PEQ(gW, d)) || FRESH_NODE(gW))
+#define W1(e) (e)
+#define W2(e) 1
+#elif defined(OB_W2)
+#define K_WIN(a, b, c, d) (FRESH_NODE(gK) && ALIAS4(gK->next, a, b, c, d) && ALIAS4(gK->previous, a, b, c, d))
+#define K_VAL(L) (I_FWD(L, gK) && I_BWD(L, gK) && I_STAMP(gK))
+#define K_ENS(L) (I_FWD(L, gK) && I_BWD(L, gK) && I_STAMP(gK))
+#define W_WIN(a, b, c, d) 1
+#define W1(e) 1
+#define W2(e) (e)
+#else
+#define K_WIN(a, b, c, d) (FRESH_NODE(gK) && ALIAS4(gK->next, a, b, c, d) && ALIAS4(gK->previous, a, b, c, d))
+#define K_VAL(L) (I_FWD(L, gK) && I_BWD(L, gK) && I_STAMP(gK))
+#define K_ENS(L) (I_FWD(L, gK) && I_BWD(L, gK) && I_STAMP(gK))
+#define W_WIN(a, b, c, d) 1
+#define W1(e) 1
+#define W2(e) 1
+#endif
+/* all witness-side instances for witness w against up to three nodes x whose `next` lies in the window */
+#define W_INST(L, w, x1, x2, x3) (gapn(x1, w) && gapn(x2, w) && gapn(x3, w) && uniqn(x1, w) && uniqn(x2, w) && uniqn(x3, w) && headgapn(L, w) && i_cntn(L, w) && j_genn(w))
+#define NUL ((Node *)0)
 
 /* field-write hook: every store to Node::counter goes through this (extract/units.py field_hooks);
  * marking a node removed stamps it with the ghost clock */
 #define NODE_SET_counter(n, v) ((n)->counter = (v), ((n)->counter == 0 ? ((n)->remStamp = ++g_clock) : 0ull), (n)->counter)
-
-/* list header instance */
-static inline _Bool i_hdr(const CL *L)
-{
-  if ((L->head == NULL) != (L->tail == NULL)) return 0;
-  return 1;
-}
-#define I_HDR(L) i_hdr(L)
-#define NOWRAP(L) ((L)->currentCounter != 0xffffffffu)
 
 /* ================================================================== trusted environment: allocation
  * std::make_shared<Node> = this allocation + the extracted Node constructor.  The fresh node receives the
@@ -183,28 +174,67 @@ static inline _Bool i_hdr(const CL *L)
   __CPROVER_ensures(__CPROVER_return_value != 0)
 #endif
 
+/* ================================================================== doFreeNode (callbacklist.h:386)
+ * window: n = *node, p = n->previous, s = n->next, h = head
+ * pre : mutex held, n is a LIVE node of this list (instances at n)
+ * post: exact link surgery; n marked removed and stamped, its own links kept (stale); instances again */
+#define FN_N (*node)
+#define FN_P ((*node)->previous)
+#define FN_S ((*node)->next)
+#define CONTRACT_CL_doFreeNode \
+  __CPROVER_requires(__CPROVER_is_fresh(self, sizeof(CL)) && __CPROVER_is_fresh(node, sizeof(Node *)) && FRESH_NODE(FN_N)) \
+  __CPROVER_requires(NULL_OR_FRESH(FN_P) && NULL_OR_FRESH(FN_S)) \
+  __CPROVER_requires((FN_P != NULL ==> PEQ(FN_P->next, FN_N)) && (FN_S != NULL ==> PEQ(FN_S->previous, FN_N)))  /* back pointers by pointer_equals (value sets) */ \
+  __CPROVER_requires(PEQ(self->head, FN_N) || (FN_P != NULL && PEQ(self->head, FN_P)) || FRESH_NODE(self->head)) \
+  __CPROVER_requires(K_WIN(FN_N, FN_P, FN_S, self->head) && W_WIN(FN_N, FN_P, FN_S, self->head)) \
+  __CPROVER_requires(HELD(self) && CLOCK_OK && K_VAL(self)) \
+  __CPROVER_requires(LIVE(FN_N) && I_FWD(self, FN_N) && I_BWD(self, FN_N) && I_STAMP(FN_N)) \
+  __CPROVER_requires(FN_P != NULL ==> (I_FWD(self, FN_P) && I_STAMP(FN_P))) \
+  __CPROVER_requires(FN_S != NULL ==> (I_BWD(self, FN_S) && I_STAMP(FN_S))) \
+  __CPROVER_requires(W1(I_STAMP(gW) && W_INST(self, gW, FN_N, FN_P, NUL))) \
+  __CPROVER_assigns(FN_N->counter, FN_N->remStamp, g_clock) \
+  __CPROVER_assigns(self->head == FN_N: self->head) \
+  __CPROVER_assigns(self->tail == FN_N: self->tail) \
+  __CPROVER_assigns(FN_S != NULL: FN_S->previous) \
+  __CPROVER_assigns(FN_P != NULL: FN_P->next) \
+  __CPROVER_ensures(!LIVE(FN_N) && FN_N->remStamp == g_clock && g_clock == __CPROVER_old(g_clock) + 1) \
+  __CPROVER_ensures(FN_S == __CPROVER_old(FN_S) && FN_P == __CPROVER_old(FN_P)) \
+  __CPROVER_ensures(FN_P != NULL ==> PTR_IS(FN_P->next, FN_S)) \
+  __CPROVER_ensures(FN_S != NULL ==> PTR_IS(FN_S->previous, FN_P)) \
+  __CPROVER_ensures(__CPROVER_old(self->head) == FN_N ? PTR_IS(self->head, FN_S) : self->head == __CPROVER_old(self->head)) \
+  __CPROVER_ensures(__CPROVER_old(self->tail) == FN_N ? PTR_IS(self->tail, FN_P) : self->tail == __CPROVER_old(self->tail)) \
+  __CPROVER_ensures(HELD(self)) \
+  __CPROVER_ensures(I_FWD(self, FN_N) && I_BWD(self, FN_N) && I_STAMP(FN_N)) \
+  __CPROVER_ensures(FN_P != NULL ==> I_FWD(self, FN_P)) \
+  __CPROVER_ensures(FN_S != NULL ==> I_BWD(self, FN_S)) \
+  __CPROVER_ensures(K_ENS(self)) \
+  __CPROVER_ensures(W1(W_INST(self, gW, FN_N, FN_P, NUL)))
+
 /* ================================================================== remove (callbacklist.h:228)
  * statement (C01/C02): returns true EXACTLY when it took a callback out of the list; through the handle of an
  * already removed (but still referenced) callback it is inert: returns false and changes nothing. */
 #define RM_N (handle->p)
+#define RM_LIVE (RM_N != NULL && LIVE(RM_N))
 #define CONTRACT_CL_remove \
   __CPROVER_requires(__CPROVER_is_fresh(self, sizeof(CL)) && __CPROVER_is_fresh(handle, sizeof(Handle)) && NULL_OR_FRESH(RM_N)) \
   __CPROVER_requires(RM_N != NULL ==> (NULL_OR_FRESH(RM_N->previous) && NULL_OR_FRESH(RM_N->next))) \
   __CPROVER_requires((RM_N != NULL && RM_N->previous != NULL) ==> (PEQ(RM_N->previous->next, RM_N) || NULL_OR_FRESH(RM_N->previous->next))) \
   __CPROVER_requires((RM_N != NULL && RM_N->next != NULL) ==> (PEQ(RM_N->next->previous, RM_N) || NULL_OR_FRESH(RM_N->next->previous))) \
   __CPROVER_requires(RM_N != NULL ==> (PEQ(self->head, RM_N) || (RM_N->previous != NULL && PEQ(self->head, RM_N->previous)) || self->head == NULL || FRESH_NODE(self->head))) \
-  __CPROVER_requires(RM_N != NULL ==> K_REQ(self, RM_N, RM_N->previous, RM_N->next, (Node *)NULL)) \
+  __CPROVER_requires(RM_N != NULL ==> (K_WIN(RM_N, RM_N->previous, RM_N->next, self->head) && W_WIN(RM_N, RM_N->previous, RM_N->next, self->head))) \
   __CPROVER_requires(UNLOCKED(self) && CLOCK_OK) \
-  __CPROVER_requires(g_b0 == (RM_N != NULL && LIVE(RM_N)))   /* snapshot: the handle refers to a callback that is in the list */ \
-  __CPROVER_requires(RM_N != NULL ==> (I_FWD(self, RM_N) && I_BWD(self, RM_N) && I_STAMP(RM_N) && headgap(self, RM_N))) \
-  __CPROVER_requires((RM_N != NULL && LIVE(RM_N) && RM_N->previous != NULL) ==> (I_FWD(self, RM_N->previous) && I_STAMP(RM_N->previous))) \
-  __CPROVER_requires((RM_N != NULL && LIVE(RM_N) && RM_N->next != NULL) ==> (I_BWD(self, RM_N->next) && I_STAMP(RM_N->next))) \
-  __CPROVER_requires(RM_N != NULL ==> (W_IS(RM_N, RM_N->previous, RM_N->next) && I_STAMP(gW))) \
-  __CPROVER_requires((RM_N != NULL && LIVE(RM_N)) ==> (headgap(self, gW) && gap(RM_N, gW) && uniq(RM_N, gW) && gap(gK, gW) && (RM_N->previous != NULL ==> gap(RM_N->previous, gW)))) \
+  __CPROVER_requires(g_b0 == RM_LIVE)   /* snapshot: the handle refers to a callback that is in the list */ \
+  __CPROVER_requires(RM_N != NULL ==> (K_VAL(self) && I_FWD(self, RM_N) && I_BWD(self, RM_N) && I_STAMP(RM_N) && headgap(self, RM_N))) \
+  __CPROVER_requires((RM_LIVE && RM_N->previous != NULL) ==> (I_FWD(self, RM_N->previous) && I_STAMP(RM_N->previous))) \
+  __CPROVER_requires((RM_LIVE && RM_N->next != NULL) ==> (I_BWD(self, RM_N->next) && I_STAMP(RM_N->next))) \
+  __CPROVER_requires(W1(RM_N != NULL ==> I_STAMP(gW))) \
+  __CPROVER_requires(W1(RM_LIVE ==> W_INST(self, gW, RM_N, RM_N->previous, NUL))) \
   __CPROVER_assigns(self->mutex.depth) \
-  __CPROVER_assigns(RM_N != NULL && LIVE(RM_N): RM_N->counter, RM_N->remStamp, g_clock, self->head, self->tail) \
-  __CPROVER_assigns(RM_N != NULL && LIVE(RM_N) && RM_N->next != NULL: RM_N->next->previous) \
-  __CPROVER_assigns(RM_N != NULL && LIVE(RM_N) && RM_N->previous != NULL: RM_N->previous->next) \
+  __CPROVER_assigns(RM_LIVE: RM_N->counter, RM_N->remStamp, g_clock) \
+  __CPROVER_assigns(RM_LIVE && self->head == RM_N: self->head) \
+  __CPROVER_assigns(RM_LIVE && self->tail == RM_N: self->tail) \
+  __CPROVER_assigns(RM_LIVE && RM_N->next != NULL: RM_N->next->previous) \
+  __CPROVER_assigns(RM_LIVE && RM_N->previous != NULL: RM_N->previous->next) \
   __CPROVER_ensures(__CPROVER_return_value == g_b0) \
   __CPROVER_ensures(UNLOCKED(self)) \
   __CPROVER_ensures(RM_N != NULL ==> (!LIVE(RM_N) && RM_N->next == __CPROVER_old(RM_N->next) && RM_N->previous == __CPROVER_old(RM_N->previous))) \
@@ -217,128 +247,153 @@ static inline _Bool i_hdr(const CL *L)
   __CPROVER_ensures((g_b0 && RM_N->previous != NULL) ==> I_FWD(self, RM_N->previous)) \
   __CPROVER_ensures((g_b0 && RM_N->next != NULL) ==> I_BWD(self, RM_N->next)) \
   __CPROVER_ensures(RM_N != NULL ==> K_ENS(self)) \
-  __CPROVER_ensures(g_b0 ==> (gap(RM_N, gW) && gap(gK, gW) && (RM_N->previous != NULL ==> gap(RM_N->previous, gW)) && headgap(self, gW) && j_gen(RM_N)))
+  __CPROVER_ensures(W1(g_b0 ==> W_INST(self, gW, RM_N, RM_N->previous, NUL)))
 
-/* ================================================================== append (callbacklist.h:171)
- * statement: the new callback goes to the back.  window: t = old tail (null or a node), gK.
- * prophecy : the fresh node's rank is above the old tail's (renumbering lemma). */
+/* ================================================================== append (callbacklist.h:171) / doAppend
+ * statement: the new callback goes to the back.  window: t = old tail (null or a node), h = head.
+ * prophecy : the fresh node's rank is above the old tail's and differs from every rank it is compared with. */
 #define AP_T (self->tail)
+#define AP_M (__CPROVER_return_value.p)
 #define CONTRACT_CL_append \
   __CPROVER_requires(__CPROVER_is_fresh(self, sizeof(CL)) && __CPROVER_is_fresh(callback, sizeof(Callback)) && NULL_OR_FRESH(AP_T)) \
   __CPROVER_requires(self->head == NULL || (AP_T != NULL && PEQ(self->head, AP_T)) || FRESH_NODE(self->head)) \
-  __CPROVER_requires(UNLOCKED(self) && CLOCK_OK && NOWRAP(self) && I_HDR(self)) \
+  __CPROVER_requires(K_WIN(AP_T, self->head, NUL, NUL) && W_WIN(AP_T, self->head, NUL, NUL)) \
+  __CPROVER_requires(UNLOCKED(self) && CLOCK_OK && NOWRAP(self) && I_HDR(self) && K_VAL(self)) \
   __CPROVER_requires(AP_T != NULL ==> (LIVE(AP_T) && I_FWD(self, AP_T) && I_STAMP(AP_T) && g_next_rank > AP_T->rank)) \
-  __CPROVER_requires(K_REQ(self, AP_T, self->head, (Node *)NULL, (Node *)NULL)) \
-  __CPROVER_requires(g_u0 == (unsigned long long)(AP_T != NULL) && g_next_rank > 0) \
+  __CPROVER_requires(g_u0 == (unsigned long long)(AP_T != NULL) && g_next_rank > 0 && rank_free(g_next_rank, self->head)) \
+  __CPROVER_requires(W1(I_STAMP(gW) && INV_TIME(self) && W_INST(self, gW, AP_T, NUL, NUL) && W_INST(self, AP_T, AP_T, NUL, NUL) && rank_free(g_next_rank, gW))) \
+  __CPROVER_requires(W2(INV_TIME(self) && W_INST(self, gK, AP_T, NUL, NUL) && W_INST(self, gK->next, AP_T, NUL, NUL) && W_INST(self, AP_T, gK, NUL, NUL) && rank_free(g_next_rank, gK) && rank_free(g_next_rank, gK->next))) \
   __CPROVER_assigns(self->mutex.depth, self->currentCounter, g_clock, self->tail) \
   __CPROVER_assigns(AP_T == NULL: self->head) \
   __CPROVER_assigns(AP_T != NULL: AP_T->next) \
-  __CPROVER_ensures(FRESH_NODE(__CPROVER_return_value.p))                           /* a new node, shared with nothing */ \
+  __CPROVER_ensures(FRESH_NODE(AP_M))                                             /* a new node, shared with nothing */ \
   __CPROVER_ensures(UNLOCKED(self) && I_HDR(self)) \
-  __CPROVER_ensures(PEQ(self->tail, __CPROVER_return_value.p) && __CPROVER_return_value.p->next == NULL) \
-  __CPROVER_ensures(PTR_IS(__CPROVER_return_value.p->previous, __CPROVER_old(self->tail))) \
-  __CPROVER_ensures(g_u0 ? (PEQ(__CPROVER_return_value.p->previous->next, __CPROVER_return_value.p) && self->head == __CPROVER_old(self->head)) \
-                         : PEQ(self->head, __CPROVER_return_value.p)) \
-  __CPROVER_ensures(__CPROVER_return_value.p->callback.id == callback->id) \
-  __CPROVER_ensures(__CPROVER_return_value.p->counter == self->currentCounter && self->currentCounter == __CPROVER_old(self->currentCounter) + 1) \
-  __CPROVER_ensures(__CPROVER_return_value.p->rank == g_next_rank && __CPROVER_return_value.p->addStamp == g_clock && g_clock == __CPROVER_old(g_clock) + 1) \
-  __CPROVER_ensures(I_FWD(self, __CPROVER_return_value.p) && I_BWD(self, __CPROVER_return_value.p) && I_STAMP(__CPROVER_return_value.p)) \
-  __CPROVER_ensures(g_u0 ==> I_FWD(self, __CPROVER_return_value.p->previous)) \
-  __CPROVER_ensures(K_ENS(self))
+  __CPROVER_ensures(PEQ(self->tail, AP_M) && AP_M->next == NULL) \
+  __CPROVER_ensures(PTR_IS(AP_M->previous, __CPROVER_old(self->tail))) \
+  __CPROVER_ensures(g_u0 ? (PEQ(AP_M->previous->next, AP_M) && self->head == __CPROVER_old(self->head)) : PEQ(self->head, AP_M)) \
+  __CPROVER_ensures(AP_M->callback.id == callback->id) \
+  __CPROVER_ensures(AP_M->counter == self->currentCounter && self->currentCounter == __CPROVER_old(self->currentCounter) + 1) \
+  __CPROVER_ensures(AP_M->rank == g_next_rank && AP_M->addStamp == g_clock && g_clock == __CPROVER_old(g_clock) + 1) \
+  __CPROVER_ensures(I_FWD(self, AP_M) && I_BWD(self, AP_M) && I_STAMP(AP_M)) \
+  __CPROVER_ensures(g_u0 ==> I_FWD(self, AP_M->previous)) \
+  __CPROVER_ensures(K_ENS(self)) \
+  __CPROVER_ensures(W1(W_INST(self, gW, AP_M->previous, AP_M, NUL) && W_INST(self, AP_M, AP_M->previous, AP_M, NUL) && W_INST(self, AP_M->previous, AP_M->previous, AP_M, NUL))) \
+  __CPROVER_ensures(W2(W_INST(self, AP_M, gK, NUL, NUL) && W_INST(self, gK, AP_M->previous, AP_M, gK)))
 
 /* ================================================================== prepend (callbacklist.h:190): mirror image */
 #define PP_H (self->head)
 #define CONTRACT_CL_prepend \
   __CPROVER_requires(__CPROVER_is_fresh(self, sizeof(CL)) && __CPROVER_is_fresh(callback, sizeof(Callback)) && NULL_OR_FRESH(PP_H)) \
   __CPROVER_requires(self->tail == NULL || (PP_H != NULL && PEQ(self->tail, PP_H)) || FRESH_NODE(self->tail)) \
-  __CPROVER_requires(UNLOCKED(self) && CLOCK_OK && NOWRAP(self) && I_HDR(self)) \
+  __CPROVER_requires(K_WIN(PP_H, self->tail, NUL, NUL) && W_WIN(PP_H, self->tail, NUL, NUL)) \
+  __CPROVER_requires(UNLOCKED(self) && CLOCK_OK && NOWRAP(self) && I_HDR(self) && K_VAL(self)) \
   __CPROVER_requires(PP_H != NULL ==> (LIVE(PP_H) && I_BWD(self, PP_H) && I_STAMP(PP_H) && g_next_rank < PP_H->rank)) \
-  __CPROVER_requires(K_REQ(self, PP_H, self->tail, (Node *)NULL, (Node *)NULL)) \
-  __CPROVER_requires(g_u0 == (unsigned long long)(PP_H != NULL) && g_next_rank > 0) \
+  __CPROVER_requires(g_u0 == (unsigned long long)(PP_H != NULL) && g_next_rank > 0 && rank_free(g_next_rank, self->tail)) \
+  __CPROVER_requires(W1(I_STAMP(gW) && INV_TIME(self) && W_INST(self, gW, NUL, NUL, NUL) && W_INST(self, PP_H, NUL, NUL, NUL) && rank_free(g_next_rank, gW))) \
+  __CPROVER_requires(W2(INV_TIME(self) && W_INST(self, gK, gK, NUL, NUL) && W_INST(self, gK->next, gK, NUL, NUL) && W_INST(self, PP_H, gK, NUL, NUL) && rank_free(g_next_rank, gK) && rank_free(g_next_rank, gK->next))) \
   __CPROVER_assigns(self->mutex.depth, self->currentCounter, g_clock, self->head) \
   __CPROVER_assigns(PP_H == NULL: self->tail) \
   __CPROVER_assigns(PP_H != NULL: PP_H->previous) \
-  __CPROVER_ensures(FRESH_NODE(__CPROVER_return_value.p)) \
+  __CPROVER_ensures(FRESH_NODE(AP_M)) \
   __CPROVER_ensures(UNLOCKED(self) && I_HDR(self)) \
-  __CPROVER_ensures(PEQ(self->head, __CPROVER_return_value.p) && __CPROVER_return_value.p->previous == NULL) \
-  __CPROVER_ensures(PTR_IS(__CPROVER_return_value.p->next, __CPROVER_old(self->head))) \
-  __CPROVER_ensures(g_u0 ? (PEQ(__CPROVER_return_value.p->next->previous, __CPROVER_return_value.p) && self->tail == __CPROVER_old(self->tail)) \
-                         : PEQ(self->tail, __CPROVER_return_value.p)) \
-  __CPROVER_ensures(__CPROVER_return_value.p->callback.id == callback->id) \
-  __CPROVER_ensures(__CPROVER_return_value.p->counter == self->currentCounter && self->currentCounter == __CPROVER_old(self->currentCounter) + 1) \
-  __CPROVER_ensures(__CPROVER_return_value.p->rank == g_next_rank && __CPROVER_return_value.p->addStamp == g_clock && g_clock == __CPROVER_old(g_clock) + 1) \
-  __CPROVER_ensures(I_FWD(self, __CPROVER_return_value.p) && I_BWD(self, __CPROVER_return_value.p) && I_STAMP(__CPROVER_return_value.p)) \
-  __CPROVER_ensures(g_u0 ==> I_BWD(self, __CPROVER_return_value.p->next)) \
-  __CPROVER_ensures(K_ENS(self))
+  __CPROVER_ensures(PEQ(self->head, AP_M) && AP_M->previous == NULL) \
+  __CPROVER_ensures(PTR_IS(AP_M->next, __CPROVER_old(self->head))) \
+  __CPROVER_ensures(g_u0 ? (PEQ(AP_M->next->previous, AP_M) && self->tail == __CPROVER_old(self->tail)) : PEQ(self->tail, AP_M)) \
+  __CPROVER_ensures(AP_M->callback.id == callback->id) \
+  __CPROVER_ensures(AP_M->counter == self->currentCounter && self->currentCounter == __CPROVER_old(self->currentCounter) + 1) \
+  __CPROVER_ensures(AP_M->rank == g_next_rank && AP_M->addStamp == g_clock && g_clock == __CPROVER_old(g_clock) + 1) \
+  __CPROVER_ensures(I_FWD(self, AP_M) && I_BWD(self, AP_M) && I_STAMP(AP_M)) \
+  __CPROVER_ensures(g_u0 ==> I_BWD(self, AP_M->next)) \
+  __CPROVER_ensures(K_ENS(self)) \
+  __CPROVER_ensures(W1(W_INST(self, gW, AP_M, NUL, NUL) && W_INST(self, AP_M, AP_M, NUL, NUL) && W_INST(self, AP_M->next, AP_M, NUL, NUL))) \
+  __CPROVER_ensures(W2(W_INST(self, AP_M, gK, NUL, NUL) && W_INST(self, gK, AP_M, gK, NUL)))
 
 /* ================================================================== doInsert (callbacklist.h:367)
- * window: m = *node (new, unlinked), b = *beforeNode (LIVE node of this list), bp = b->previous, gK */
+ * window: m = *node (new, unlinked), b = *beforeNode (LIVE node of this list), bp = b->previous, h = head */
 #define DI_M (*node)
 #define DI_B (*beforeNode)
+#define DI_P ((*beforeNode)->previous)
 #define CONTRACT_CL_doInsert \
   __CPROVER_requires(__CPROVER_is_fresh(self, sizeof(CL)) && __CPROVER_is_fresh(node, sizeof(Node *)) && __CPROVER_is_fresh(beforeNode, sizeof(Node *))) \
-  __CPROVER_requires(FRESH_NODE(DI_M) && FRESH_NODE(DI_B) && NULL_OR_FRESH(DI_B->previous)) \
-  __CPROVER_requires(DI_B->previous != NULL ==> PEQ(DI_B->previous->next, DI_B)) \
-  __CPROVER_requires(HELD(self) && DI_M->previous == NULL && DI_M->next == NULL && LIVE(DI_M) && I_STAMP(DI_M)) \
+  __CPROVER_requires(FRESH_NODE(DI_M) && FRESH_NODE(DI_B) && NULL_OR_FRESH(DI_P)) \
+  __CPROVER_requires(DI_P != NULL ==> PEQ(DI_P->next, DI_B)) \
+  __CPROVER_requires(PEQ(self->head, DI_B) || (DI_P != NULL && PEQ(self->head, DI_P)) || FRESH_NODE(self->head)) \
+  __CPROVER_requires(K_WIN(DI_B, DI_P, self->head, NUL) && W_WIN(DI_B, DI_P, DI_M, self->head)) \
+  __CPROVER_requires(HELD(self) && DI_M->previous == NULL && DI_M->next == NULL && LIVE(DI_M) && I_STAMP(DI_M) && K_VAL(self)) \
   __CPROVER_requires(self->tail != DI_M && self->head != DI_M)      /* m is not linked yet */ \
   __CPROVER_requires(LIVE(DI_B) && I_BWD(self, DI_B) && I_STAMP(DI_B) && DI_M->rank < DI_B->rank) \
-  __CPROVER_requires(DI_B->previous != NULL ==> (I_FWD(self, DI_B->previous) && DI_B->previous->rank < DI_M->rank)) \
-  __CPROVER_requires(K_REQ(self, DI_B, DI_B->previous, (Node *)NULL, (Node *)NULL)) \
-  __CPROVER_requires(g_u1 == (unsigned long long)(DI_B->previous != NULL)) \
+  __CPROVER_requires(DI_P != NULL ==> (I_FWD(self, DI_P) && DI_P->rank < DI_M->rank)) \
+  __CPROVER_requires(g_u1 == (unsigned long long)(DI_P != NULL)) \
+  __CPROVER_requires(W1(I_STAMP(gW) && INV_TIME(self) && W_INST(self, gW, DI_P, NUL, NUL) && W_INST(self, DI_B, DI_P, NUL, NUL) && W_INST(self, DI_P, DI_P, NUL, NUL) && \
+                        uniq(DI_M, gW) && uniq(DI_M, self->head) && j_gen(DI_M) && i_cnt(self, DI_M))) \
+  __CPROVER_requires(W2(INV_TIME(self) && W_INST(self, gK, DI_P, gK, NUL) && W_INST(self, gK->next, DI_P, gK, NUL) && W_INST(self, DI_B, DI_P, gK, NUL) && W_INST(self, DI_P, DI_P, gK, NUL) && \
+                        uniq(DI_M, gK) && uniqn(DI_M, gK->next) && uniq(DI_M, self->head) && j_gen(DI_M) && i_cnt(self, DI_M) && (!LIVE(gK) ==> DI_M->addStamp > gK->remStamp))) \
   __CPROVER_assigns(DI_M->previous, DI_M->next, DI_B->previous) \
   __CPROVER_assigns(self->head == DI_B: self->head) \
-  __CPROVER_assigns(DI_B->previous != NULL: DI_B->previous->next) \
+  __CPROVER_assigns(DI_P != NULL: DI_P->next) \
   __CPROVER_ensures(PEQ(DI_M->next, DI_B) && PEQ(DI_B->previous, DI_M) && PTR_IS(DI_M->previous, __CPROVER_old(DI_B->previous))) \
   __CPROVER_ensures(g_u1 ? (PEQ(DI_M->previous->next, DI_M) && self->head == __CPROVER_old(self->head)) : PEQ(self->head, DI_M)) \
   __CPROVER_ensures(HELD(self) && I_FWD(self, DI_M) && I_BWD(self, DI_M) && I_BWD(self, DI_B)) \
   __CPROVER_ensures(g_u1 ==> I_FWD(self, DI_M->previous)) \
-  __CPROVER_ensures(K_ENS(self))
+  __CPROVER_ensures(K_ENS(self)) \
+  __CPROVER_ensures(W1(W_INST(self, gW, DI_M->previous, DI_M, NUL) && W_INST(self, DI_M, DI_M->previous, DI_M, NUL) && W_INST(self, DI_B, DI_M->previous, DI_M, NUL) && W_INST(self, DI_M->previous, DI_M->previous, DI_M, NUL))) \
+  __CPROVER_ensures(W2(W_INST(self, DI_M, gK, NUL, NUL) && W_INST(self, gK, DI_M->previous, DI_M, gK)))
 
 /* ================================================================== insert (callbacklist.h:209)
  * statement: immediately before the referenced callback, or at the back when that callback is no longer in the
  * list (handle empty, expired, or referring to a removed but still referenced callback).
- * window: b = before->p, bp = b->previous, t = tail (null, b, or another node), gK */
+ * window: b = before->p, bp = b->previous, t = tail (null, b, or another node), h = head */
 #define IN_B (before->p)
+#define IN_P (before->p->previous)
 #define IN_LIVE (IN_B != NULL && LIVE(IN_B))
+#define IN_PN (IN_B != NULL ? IN_P : NUL)
 #define CONTRACT_CL_insert \
   __CPROVER_requires(__CPROVER_is_fresh(self, sizeof(CL)) && __CPROVER_is_fresh(callback, sizeof(Callback)) && __CPROVER_is_fresh(before, sizeof(Handle))) \
-  __CPROVER_requires(NULL_OR_FRESH(IN_B) && (IN_B != NULL ==> NULL_OR_FRESH(IN_B->previous))) \
-  __CPROVER_requires((IN_B != NULL && IN_B->previous != NULL) ==> (PEQ(IN_B->previous->next, IN_B) || NULL_OR_FRESH(IN_B->previous->next))) \
+  __CPROVER_requires(NULL_OR_FRESH(IN_B) && (IN_B != NULL ==> NULL_OR_FRESH(IN_P))) \
+  __CPROVER_requires((IN_B != NULL && IN_P != NULL) ==> (PEQ(IN_P->next, IN_B) || NULL_OR_FRESH(IN_P->next))) \
   __CPROVER_requires(self->tail == NULL || (IN_B != NULL && PEQ(self->tail, IN_B)) || FRESH_NODE(self->tail)) \
-  __CPROVER_requires(self->head == NULL || (IN_B != NULL && PEQ(self->head, IN_B)) || (IN_B != NULL && IN_B->previous != NULL && PEQ(self->head, IN_B->previous)) || PEQ(self->head, self->tail) || FRESH_NODE(self->head)) \
-  __CPROVER_requires(UNLOCKED(self) && CLOCK_OK && NOWRAP(self) && I_HDR(self)) \
-  __CPROVER_requires(g_b0 == IN_LIVE && g_next_rank > 0) \
-  __CPROVER_requires(IN_B != NULL ==> (I_BWD(self, IN_B) && I_STAMP(IN_B))) \
-  __CPROVER_requires((IN_LIVE && IN_B->previous != NULL) ==> (I_FWD(self, IN_B->previous) && I_STAMP(IN_B->previous))) \
+  __CPROVER_requires(self->head == NULL || (IN_B != NULL && PEQ(self->head, IN_B)) || (IN_B != NULL && IN_P != NULL && PEQ(self->head, IN_P)) || PEQ(self->head, self->tail) || FRESH_NODE(self->head)) \
+  __CPROVER_requires(K_WIN(self->tail, IN_B, IN_PN, self->head) && W_WIN(self->tail, IN_B, IN_PN, self->head)) \
+  __CPROVER_requires(UNLOCKED(self) && CLOCK_OK && NOWRAP(self) && I_HDR(self) && K_VAL(self)) \
+  __CPROVER_requires(g_b0 == IN_LIVE && g_next_rank > 0 && rank_free(g_next_rank, self->head)) \
+  __CPROVER_requires(IN_B != NULL ==> (I_BWD(self, IN_B) && I_STAMP(IN_B) && headgap(self, IN_B))) \
+  __CPROVER_requires((IN_LIVE && IN_P != NULL) ==> (I_FWD(self, IN_P) && I_STAMP(IN_P))) \
   __CPROVER_requires(self->tail != NULL ==> (LIVE(self->tail) && I_FWD(self, self->tail) && I_STAMP(self->tail))) \
-  __CPROVER_requires(IN_LIVE ? (g_next_rank < IN_B->rank && (IN_B->previous != NULL ==> IN_B->previous->rank < g_next_rank)) \
+  __CPROVER_requires(IN_LIVE ? (g_next_rank < IN_B->rank && (IN_P != NULL ==> IN_P->rank < g_next_rank)) \
                              : (self->tail != NULL ==> g_next_rank > self->tail->rank)) \
-  __CPROVER_requires(K_REQ(self, self->tail, IN_B, (IN_B != NULL ? IN_B->previous : (Node *)NULL), self->head)) \
-  __CPROVER_requires(g_u0 == (unsigned long long)(self->tail != NULL) && g_u1 == (unsigned long long)(IN_LIVE && IN_B->previous != NULL)) \
-  __CPROVER_assigns(self->mutex.depth, self->currentCounter, g_clock, self->head, self->tail) \
+  __CPROVER_requires(g_u0 == (unsigned long long)(self->tail != NULL) && g_u1 == (unsigned long long)(IN_LIVE && IN_P != NULL)) \
+  __CPROVER_requires(W1(I_STAMP(gW) && INV_TIME(self) && rank_free(g_next_rank, gW))) \
+  __CPROVER_requires(W1(IN_LIVE ? (W_INST(self, gW, IN_P, NUL, NUL) && W_INST(self, IN_B, IN_P, NUL, NUL) && W_INST(self, IN_P, IN_P, NUL, NUL)) \
+                                : (W_INST(self, gW, self->tail, NUL, NUL) && W_INST(self, self->tail, self->tail, NUL, NUL)))) \
+  __CPROVER_requires(W2(INV_TIME(self) && rank_free(g_next_rank, gK) && rank_free(g_next_rank, gK->next))) \
+  __CPROVER_requires(W2(IN_LIVE ? (W_INST(self, gK, IN_P, gK, NUL) && W_INST(self, gK->next, IN_P, gK, NUL) && W_INST(self, IN_B, IN_P, gK, NUL) && W_INST(self, IN_P, IN_P, gK, NUL)) \
+                                : (W_INST(self, gK, self->tail, NUL, NUL) && W_INST(self, gK->next, self->tail, NUL, NUL) && W_INST(self, self->tail, gK, NUL, NUL)))) \
+  __CPROVER_assigns(self->mutex.depth, self->currentCounter, g_clock) \
   __CPROVER_assigns(IN_LIVE: IN_B->previous) \
-  __CPROVER_assigns(IN_LIVE && IN_B->previous != NULL: IN_B->previous->next) \
+  __CPROVER_assigns(IN_LIVE && self->head == IN_B: self->head) \
+  __CPROVER_assigns(IN_LIVE && IN_P != NULL: IN_P->next) \
+  __CPROVER_assigns(!IN_LIVE: self->tail) \
+  __CPROVER_assigns(!IN_LIVE && self->tail == NULL: self->head) \
   __CPROVER_assigns(!IN_LIVE && self->tail != NULL: self->tail->next) \
-  __CPROVER_ensures(FRESH_NODE(__CPROVER_return_value.p)) \
+  __CPROVER_ensures(FRESH_NODE(AP_M)) \
   __CPROVER_ensures(UNLOCKED(self) && I_HDR(self)) \
-  __CPROVER_ensures(__CPROVER_return_value.p->callback.id == callback->id && LIVE(__CPROVER_return_value.p)) \
-  __CPROVER_ensures(__CPROVER_return_value.p->rank == g_next_rank) \
-  __CPROVER_ensures(g_b0 ==> (__CPROVER_return_value.p->next == IN_B && IN_B->previous == __CPROVER_return_value.p)) \
-  __CPROVER_ensures(g_b0 ==> (g_u1 ? (__CPROVER_return_value.p->previous->next == __CPROVER_return_value.p && self->head == __CPROVER_old(self->head)) \
-                                   : (__CPROVER_return_value.p->previous == NULL && self->head == __CPROVER_return_value.p))) \
+  __CPROVER_ensures(AP_M->callback.id == callback->id && LIVE(AP_M) && AP_M->rank == g_next_rank) \
+  __CPROVER_ensures(g_b0 ==> (AP_M->next == IN_B && IN_B->previous == AP_M)) \
+  __CPROVER_ensures(g_b0 ==> (g_u1 ? (AP_M->previous->next == AP_M && self->head == __CPROVER_old(self->head)) : (AP_M->previous == NULL && self->head == AP_M))) \
   __CPROVER_ensures(g_b0 ==> self->tail == __CPROVER_old(self->tail)) \
-  __CPROVER_ensures(!g_b0 ==> (self->tail == __CPROVER_return_value.p && __CPROVER_return_value.p->next == NULL && __CPROVER_return_value.p->previous == __CPROVER_old(self->tail))) \
-  __CPROVER_ensures(!g_b0 ==> (g_u0 ? (__CPROVER_return_value.p->previous->next == __CPROVER_return_value.p && self->head == __CPROVER_old(self->head)) : self->head == __CPROVER_return_value.p)) \
-  __CPROVER_ensures(I_FWD(self, __CPROVER_return_value.p) && I_BWD(self, __CPROVER_return_value.p) && I_STAMP(__CPROVER_return_value.p)) \
+  __CPROVER_ensures(!g_b0 ==> (self->tail == AP_M && AP_M->next == NULL && AP_M->previous == __CPROVER_old(self->tail))) \
+  __CPROVER_ensures(!g_b0 ==> (g_u0 ? (AP_M->previous->next == AP_M && self->head == __CPROVER_old(self->head)) : self->head == AP_M)) \
+  __CPROVER_ensures(I_FWD(self, AP_M) && I_BWD(self, AP_M) && I_STAMP(AP_M)) \
   __CPROVER_ensures(IN_B != NULL ==> I_BWD(self, IN_B)) \
-  __CPROVER_ensures(K_ENS(self))
+  __CPROVER_ensures(K_ENS(self)) \
+  __CPROVER_ensures(W1(W_INST(self, gW, AP_M->previous, AP_M, NUL) && W_INST(self, AP_M, AP_M->previous, AP_M, NUL))) \
+  __CPROVER_ensures(W2(W_INST(self, AP_M, gK, NUL, NUL) && W_INST(self, gK, AP_M->previous, AP_M, gK)))
 
 /* ================================================================== empty (callbacklist.h:158) */
 #define CONTRACT_CL_empty \
   __CPROVER_requires(__CPROVER_is_fresh(self, sizeof(CL))) \
   __CPROVER_assigns() \
   __CPROVER_ensures(__CPROVER_return_value == (self->head == NULL))
-
 
 /* ================================================================== invocation (doForEachIf, callbacklist.h:326) -- C01 / C02
  * ghost state of ONE ARBITRARY invocation: g_T = ghost clock when it started, g_c = generation counter it captured,
